@@ -49,3 +49,45 @@ Example C19_ttsv_ex : guard_ttsv [3; 3; 3] 3 None = Ok tt /\ guard_ttsv [3; 3; 3
   /\ guard_ttsv [2; 3; 4] 2 None = Err /\ guard_ttsv [3; 3; 3] 3 (Some (-1)) = Err /\ guard_ttsv [3; 3; 3] 3 (Some 3) = Err
   /\ guard_ttsv [2; 4; 1] 2 None = Ok tt /\ pre_ttsv [2; 4; 1] 2 None = false /\ pre_ttsv [3; 3; 3] 2 (Some 2) = true.
 Proof. repeat split; reflexivity. Qed.
+
+(* ttensor.reconstruct(samples, modes): the modes index a Python list, so a negative mode wraps around and a mode listed twice is
+   answered (C19-N29, open; repair proposed in fixes/C19-N29.diff).  Refuted in full; exact for non-negative, pairwise different
+   modes; the answered set and the gap (= trigger of the finding) exactly *)
+Theorem C19_reconstruct_refuted : ~ reconstruct_stmt.
+Proof. exact reconstruct_refuted. Qed.
+Print Assumptions C19_reconstruct_refuted.
+Theorem C19_reconstruct_partial : forall s modes nsamp,
+  forallb (fun m => 0 <=? m) modes = true -> nodupb modes = true ->
+  guard_reconstruct s modes nsamp = decide (pre_reconstruct s modes nsamp).
+Proof. exact reconstruct_partial. Qed.
+Print Assumptions C19_reconstruct_partial.
+Theorem C19_reconstruct_exact : forall s modes nsamp,
+  guard_reconstruct s modes nsamp = decide ((nsamp =? zlen modes) && forallb (wrap_range (ndim s)) modes).
+Proof. exact reconstruct_exact. Qed.
+Print Assumptions C19_reconstruct_exact.
+Theorem C19_reconstruct_gap : forall s modes nsamp,
+  guard_reconstruct s modes nsamp = Ok tt /\ pre_reconstruct s modes nsamp = false <->
+  nsamp = zlen modes /\ forallb (wrap_range (ndim s)) modes = true /\ modes_ok (ndim s) modes = false.
+Proof. exact reconstruct_gap. Qed.
+Print Assumptions C19_reconstruct_gap.
+Example C19_reconstruct_ex : guard_reconstruct [2; 3; 4] [2; 0] 2 = Ok tt /\ guard_reconstruct [2; 3; 4] [2; 0] 3 = Err
+  /\ guard_reconstruct [2; 3; 4] [3] 1 = Err /\ guard_reconstruct [2; 3; 4] [-1] 1 = Ok tt /\ guard_reconstruct [2; 3; 4] [0; 0] 2 = Ok tt
+  /\ guard_reconstruct [2; 3; 4] [-4] 1 = Err /\ pre_reconstruct [2; 3; 4] [-1] 1 = false /\ pre_reconstruct [2; 3; 4] [0; 0] 2 = false.
+Proof. repeat split; reflexivity. Qed.
+
+(* ktensor.score(other, threshold), sptensor.subdims(region), ktensor.from_vector(data, shape, contains_weights): the checks the code
+   makes reject exactly when the precondition fails *)
+Theorem C19_score : forall s u ra rb thr_ok, guard_score s u ra rb thr_ok = decide (pre_score s u ra rb thr_ok).
+Proof. exact score_decides. Qed.
+Print Assumptions C19_score.
+Theorem C19_subdims : forall s k, guard_subdims s k = decide (pre_subdims s k).
+Proof. exact subdims_decides. Qed.
+Print Assumptions C19_subdims.
+Theorem C19_from_vector : forall n shape cw, guard_from_vector n shape cw = decide (pre_from_vector n shape cw).
+Proof. exact from_vector_decides. Qed.
+Print Assumptions C19_from_vector.
+Example C19_score_ex : guard_score [2; 3] [2; 3] 3 2 true = Ok tt /\ guard_score [2; 3] [3; 2] 3 2 true = Err
+  /\ guard_score [2; 3] [2; 3] 2 3 true = Err /\ guard_score [2; 3] [2; 3] 3 2 false = Err /\ guard_subdims [2; 3; 2] 3 = Ok tt
+  /\ guard_subdims [2; 3; 2] 2 = Err /\ guard_from_vector 10 [2; 3] false = Ok tt /\ guard_from_vector 12 [2; 3] true = Ok tt
+  /\ guard_from_vector 11 [2; 3] false = Err /\ guard_from_vector 10 [2; 3] true = Err.
+Proof. repeat split; reflexivity. Qed.
